@@ -449,7 +449,7 @@ def C20(tier, seed):
                  opts={'queue_api': True, 'has_deferred': True, 'counted_events': counted},
                  steps_fn=lambda prog: [('ev', e) for e in prog.events] + [('enq', 'e1'), ('enq', 'e3'), ('execq',), ('destroy',)],
                  bfs_steps_fn=lambda prog: [('start',)] + [('ev', e) for e in prog.events] + [('enq', 'e1', '0'), ('enq', 'e3', '0')],
-                 conf_filter=lambda c: c.started and len(c.deferred) + len(c.queue) <= 2 and not (c.deferred and c.queue), bfs_depth=5, max_confs=(60 if tier == 'thorough' else 24),
+                 conf_filter=lambda c: c.started and len(c.deferred) + len(c.queue) <= 2 and not (c.deferred and c.queue), bfs_depth=5, max_confs=(36 if tier == 'thorough' else 24),
                  extra_leaf=live_leaf, extra_pre=live_pre, timeout=120, unwind=12, strats=['nk', 'nkG', 'pk'])
     chk.bounds.update({'kernel': 'basic_polymorphic<B,56,8>: make / copy-construct / move-construct / copy-assign / move-assign (incl. self) / destroy',
                        'pre_states': [BP_PRE[p] for p in pres], 'type_pairs': len(pairs), 'symbolic': 'operation, both slot indices, which of the two types is made, 32-bit value; values of the pre-state objects',
